@@ -11,7 +11,9 @@ PROPERTY_ID = 'C03'
 RULE = ('Certified-solvable BlockSpecs (sup-norm contraction factor of every row <= 0.6 incl. lag feedback, or '
         'feed-forward) with 1-4 aliases (x = y, x = +y, spaced; of simultaneous, lagged, exogenous, constant variables '
         'and of other aliases = chains), simultaneous rows rewritten to use the alias instead of its target, 0-3 leaf '
-        '(decorative) variables incl. leaves of leaves, initial conditions on ~25% of all simultaneous/constant/alias/'
+        '(decorative) variables incl. leaves of leaves, near-aliases that must NOT be merged (x = -y, x = (y)), 0-3 "context" '
+        'variables using an alias inside a power / product / quotient / unary minus (where substituting text for a name '
+        'changes the meaning), initial conditions on ~25% of all simultaneous/constant/alias/'
         'leaf variables, prefix-related names (x, x1, xx, x_1), shuffled line order. Both settings are solved and '
         'compared: same key set; k=0 values equal exactly; k>=1 within 40*tol*max(1,|x|)/(1-q). '
         'Non-trivial: at least one alias and at least one variable that reduction moves (alias or leaf), and at least '
@@ -28,7 +30,7 @@ ASSUMPTIONS = [
 def case(draw):
     from harness import gen
     spec = draw(blocks.system(n_sim=gen.size((1, 6), (1, 10)), q_hi=60, lags=(0, 3), exos=(0, 2), consts=(0, 2), aliases=gen.size((1, 4), (1, 5)),
-                              leaves=gen.size((0, 3), (0, 5)), horizon=gen.size((1, 4), (1, 8)), ic_prob=25, nonlinear=False,
+                              leaves=gen.size((0, 3), (0, 5)), horizon=gen.size((1, 4), (1, 8)), ic_prob=25, nonlinear=False, contexts=(0, 3),
                               tols=('1e-6', '1e-8', '1e-9'), user_t=(False, False, True)))
     return spec
 
